@@ -134,6 +134,28 @@ Theorem c19_handlers_independent g (before : list sx) (sub : sx) (after : list s
   nth (List.length before) (map (obs_sub g) (before ++ sub :: after)%list) bad_case = obs_sub g sub.
 Proof. exact (overlap_independent g before sub after). Qed.
 
+(* [core] the dispatch of Error(): the kind is decided by the error VALUE that was passed in.  A value
+   that has a Code() method (and is not one of the two system types) is answered as an
+   application error with its OWN code and text: status 200, {code c, data text} -- whatever
+   else it implements (Status(), Cause(), Unwrap()) and whatever those return, since [dyn] has no
+   such component; a value without Code() is a plain error with its own Status() or 500. *)
+Theorem c19_error_dispatch marshal parse_view (L : json_law marshal parse_view) g cb d c :
+  d_cplx d = None -> d_sys d = None -> d_code d = Some c ->
+  respond g cb (kind_of d) =
+    {| status := 200; ctyp := if is_nil cb then CtJson else CtJs; server := srv_name g;
+       body := BEnv cb [(k_code, JInt c); (k_data, JStr (d_text d))] |}
+  /\ (c <> 0 -> api_request marshal parse_view (respond g [] (kind_of d)) = (round53 c, true)).
+Proof.
+  intros A B C. pose proof (kind_of_coded d c A B C) as K. split.
+  - exact (coded_resp g cb _ c _ K).
+  - intros Hz. exact (coded_client marshal parse_view L g _ c _ K Hz).
+Qed.
+
+Theorem c19_error_dispatch_plain g cb d :
+  d_cplx d = None -> d_sys d = None -> d_code d = None ->
+  respond g cb (kind_of d) = plain_handler g (d_status d) (d_text d).
+Proof. intros A B C. rewrite (kind_of_plain d A B C). reflexivity. Qed.
+
 (* replaced Filter hooks (public variables of the package): with FilterData replaced, whatever
    object the hook returns is what is marshalled and sent -- with the status the object declares
    through HTTPStatus, 200 otherwise -- and the client half sees exactly that object: code
@@ -198,6 +220,8 @@ Print Assumptions c19_fetch.
 Print Assumptions c19_fetch_whole.
 Print Assumptions c19_fetched_is_wire.
 Print Assumptions c19_handlers_independent.
+Print Assumptions c19_error_dispatch.
+Print Assumptions c19_error_dispatch_plain.
 Print Assumptions c19_filter_hook.
 Print Assumptions c19_client_jsonp.
 Print Assumptions c19_utf8_ascii.
